@@ -376,7 +376,7 @@ func runBulk(p BulkPlan, record bool) *bulkResult {
 			mu.Unlock()
 		}(rd)
 	}
-	wg.Wait()
+	waitRound(&wg, record) // race build: structural dead-lock watch instead of the runtime detector
 	// final state through the unwrapped root (includes nothing but the base realm)
 	_ = db.Iterate(kvstore.EmptyPrefix, func(k, v []byte) bool {
 		res.final[strings.TrimPrefix(string(k), baseRealm)] = string(v)
@@ -654,8 +654,13 @@ func childBulk(c *vf.Ctx, start, count int, race bool) {
 		p := bulkPlanFor(c, idx)
 		runtime.GOMAXPROCS(p.Procs)
 		c.Mark("bulk " + strconv.Itoa(idx))
-		res := runBulk(p, !race)
+		var res *bulkResult
+		dl := guardDeadlock(func() { res = runBulk(p, !race) })
 		runtime.GOMAXPROCS(runtime.NumCPU())
+		if dl != nil {
+			c.Violation("deadlock", fmt.Sprintf("large-operation round %d (large ops %s): every goroutine is parked on a lock in consecutive snapshots and the round has not finished", idx, bigSummary(p)), map[string]any{"bulk": p, "goroutines": dl.frames})
+			break // the parked goroutines cannot be removed; end this child
+		}
 		var vs []bulkViolation
 		if race {
 			vs = checkBulkUntimed(p, res, st)
